@@ -70,7 +70,16 @@ func (c *chainStub) RetrievedTotal(common.Address) (*big.Int, error) {
 func (c *chainStub) TransferredTotal(common.Address) (*big.Int, error) {
 	return big.NewInt(0), nil
 }
+// chainCashed: amounts the chain reports as transferred by a peer after a successful cash-out
+// (peer chain address -> amount); shared by every service instance of one sequential history.
+var chainCashed sync.Map
+
 func (c *chainStub) TransAmount(beneficiary, recipient common.Address) (*big.Int, error) {
+	if recipient == c.self {
+		if v, ok := chainCashed.Load(beneficiary); ok {
+			return big.NewInt(v.(int64)), nil
+		}
+	}
 	// trafficPeerChainUpdate: TransAmount(peer, self) = transferred total, TransAmount(self, peer) = retrieved total
 	if beneficiary == c.peer && recipient == c.self {
 		return big.NewInt(c.cT), nil
@@ -91,6 +100,42 @@ func (cashoutStub) CashCheque(context.Context, boson.Address, common.Address, co
 }
 func (cashoutStub) WaitForReceipt(context.Context, common.Hash) (uint64, error) {
 	return 0, errors.New("not in this harness")
+}
+
+// cashStub: a cash-out service whose transactions are mined at once. receipt[beneficiary] is
+// what WaitForReceipt answers for that peer's transaction (1 success, 0 reverted, -1 error);
+// on success the chain reports amount[beneficiary] as transferred from then on. The transaction
+// of the sentinel address only signals that the (sequential) receipt loop has finished every
+// earlier transaction.
+type cashStub struct {
+	mu       sync.Mutex
+	receipt  map[common.Address]int
+	amount   map[common.Address]int64
+	sentinel common.Address
+	done     chan struct{}
+}
+
+func hashOf(a common.Address) common.Hash { return common.BytesToHash(a.Bytes()) }
+
+func (c *cashStub) CashCheque(_ context.Context, _ boson.Address, beneficiary, _ common.Address) (common.Hash, error) {
+	return hashOf(beneficiary), nil
+}
+func (c *cashStub) WaitForReceipt(_ context.Context, h common.Hash) (uint64, error) {
+	a := common.BytesToAddress(h.Bytes())
+	if a == c.sentinel {
+		c.done <- struct{}{}
+		return 0, errors.New("sentinel")
+	}
+	c.mu.Lock()
+	defer c.mu.Unlock()
+	switch c.receipt[a] {
+	case 1:
+		chainCashed.Store(a, c.amount[a])
+		return 1, nil
+	case 0:
+		return 0, nil
+	}
+	return 0, errors.New("receipt unavailable")
 }
 
 type signerStub struct{}
@@ -198,12 +243,16 @@ var (
 )
 
 func newService(st storage.StateStorer, cR, cT int64) *traffic.Service {
+	return newServiceCash(st, cR, cT, cashoutStub{})
+}
+
+func newServiceCash(st storage.StateStorer, cR, cT int64, co chequePkg.CashoutService) *traffic.Service {
 	logger := logging.New(io.Discard, 0)
 	cs := chequePkg.NewChequeStore(st, selfAddr, func(c *chequePkg.SignedCheque, _ int64) (common.Address, error) {
 		return c.Beneficiary, nil
 	}, 1)
 	ab := traffic.NewAddressBook(st)
-	svc := traffic.New(logger, selfAddr, st, &chainStub{self: selfAddr, peer: peerAddr, cR: cR, cT: cT}, cs, cashoutStub{}, nil, ab, signerStub{}, protoStub{}, 1, subscribe.NewSubPub())
+	svc := traffic.New(logger, selfAddr, st, &chainStub{self: selfAddr, peer: peerAddr, cR: cR, cT: cT}, cs, co, nil, ab, signerStub{}, protoStub{}, 1, subscribe.NewSubPub())
 	svc.SetNotifyPaymentFunc(func(boson.Address, *big.Int) error { return nil })
 	return svc
 }
@@ -597,6 +646,8 @@ type multiJ struct {
 	PutR  []int64 `json:"putR"`
 	PutT  []int64 `json:"putT"`
 	Recv  []int64 `json:"recv"`
+	Cash  []int   `json:"cash,omitempty"`  // per peer: 0 no cash-out; 1 receipt status 1; 2 receipt status 0; 3 receipt unavailable
+	PutT2 []int64 `json:"putT2,omitempty"` // traffic served after the cash-out receipt
 }
 
 func runMulti(m multiJ) (restored [][4]int64, want [][4]int64, err error) {
@@ -605,7 +656,11 @@ func runMulti(m multiJ) (restored [][4]int64, want [][4]int64, err error) {
 	if e != nil {
 		return nil, nil, e
 	}
-	mk := func() *traffic.Service { return newService(st, 0, 0) }
+	chainCashed.Range(func(k, _ interface{}) bool { chainCashed.Delete(k); return true })
+	sentinelAddr := common.BytesToAddress(bytes.Repeat([]byte{0x99}, 20))
+	sentinelOv := boson.NewAddress(bytes.Repeat([]byte{0x98}, 32))
+	co := &cashStub{receipt: map[common.Address]int{}, amount: map[common.Address]int64{}, sentinel: sentinelAddr, done: make(chan struct{}, 1)}
+	mk := func() *traffic.Service { return newServiceCash(st, 0, 0, co) }
 	svc := mk()
 	if e := svc.Init(); e != nil {
 		return nil, nil, e
@@ -620,12 +675,16 @@ func runMulti(m multiJ) (restored [][4]int64, want [][4]int64, err error) {
 			return nil, nil, e
 		}
 	}
+	if e := ab.PutBeneficiary(sentinelOv, sentinelAddr); e != nil {
+		return nil, nil, e
+	}
 	// the running service has its own address book instance: register there too
 	svc = mk()
 	if e := svc.Init(); e != nil {
 		return nil, nil, e
 	}
 	want = make([][4]int64, m.Peers)
+	cashed := false
 	for i := 0; i < m.Peers; i++ {
 		if v := m.PutR[i]; v > 0 {
 			if e := svc.PutRetrieveTraffic(ovs[i], big.NewInt(v)); e != nil {
@@ -645,6 +704,36 @@ func runMulti(m multiJ) (restored [][4]int64, want [][4]int64, err error) {
 				return nil, nil, e
 			}
 			want[i][3] = v
+		}
+		if i < len(m.Cash) && m.Cash[i] != 0 && m.Recv[i] > 0 {
+			co.mu.Lock()
+			co.receipt[addrs[i]] = map[int]int{1: 1, 2: 0, 3: -1}[m.Cash[i]]
+			co.amount[addrs[i]] = m.Recv[i]
+			co.mu.Unlock()
+			if _, e := svc.CashCheque(context.Background(), ovs[i]); e != nil {
+				return nil, nil, e
+			}
+			cashed = true
+		}
+	}
+	if cashed {
+		// the receipt loop handles transactions one after the other: once it asks for the
+		// sentinel's receipt, every earlier receipt has been handled completely
+		if _, e := svc.CashCheque(context.Background(), sentinelOv); e != nil {
+			return nil, nil, e
+		}
+		select {
+		case <-co.done:
+		case <-time.After(20 * time.Second):
+			return nil, nil, errors.New("cash-out receipt loop did not finish")
+		}
+	}
+	for i := 0; i < m.Peers; i++ {
+		if i < len(m.PutT2) && m.PutT2[i] > 0 {
+			if e := svc.PutTransferTraffic(ovs[i], big.NewInt(m.PutT2[i])); e != nil {
+				return nil, nil, e
+			}
+			want[i][2] = want[i][2] + m.PutT2[i]
 		}
 	}
 	svc2 := mk()
@@ -671,6 +760,8 @@ func coqOp(o opJ) string {
 		return hx.CoqApp("Pay", hx.CoqZ(o.V))
 	case "refresh":
 		return "Refresh"
+	case "cash":
+		return "Cash"
 	}
 	return hx.CoqApp("Recv", hx.CoqZ(o.V))
 }
@@ -740,17 +831,98 @@ func main() {
 		}
 	}
 
+	// corpus: the F-persist-order witness shape (two concurrent PutRetrieveTraffic), many grant orders
+	// several peers restored by one Init (the per-peer loop of trafficInit)
+	doMulti := func(m multiJ, tag string) {
+		k := m.Peers
+		var restored, want [][4]int64
+		var err error
+		ok := hx.WithTimeout(40*time.Second, func() { restored, want, err = runMulti(m) })
+		run.Hist(tag)
+		if !ok || err != nil {
+			run.AddCase("", m, fmt.Sprintf("%v", m), true)
+			run.Violate(hx.Violation{Sig: "run:hang-or-error", Detail: fmt.Sprintf("multi-peer case did not complete: ok=%v err=%v", ok, err), Case: m})
+			return
+		}
+		// correspondence: every peer is an independent sequential history of the one-peer model
+		for j := 0; j < k; j++ {
+			var ops []string
+			if m.PutR[j] > 0 {
+				ops = append(ops, coqOp(opJ{"putR", m.PutR[j]}))
+			}
+			if m.PutT[j] > 0 {
+				ops = append(ops, coqOp(opJ{"putT", m.PutT[j]}))
+			}
+			if m.Recv[j] > 0 {
+				ops = append(ops, coqOp(opJ{"recv", m.Recv[j]}))
+				if j < len(m.Cash) && m.Cash[j] == 1 {
+					ops = append(ops, coqOp(opJ{"cash", 0}))
+				}
+				if j < len(m.Cash) {
+					run.Hist(fmt.Sprintf("cash.mode=%d", m.Cash[j]))
+				}
+			}
+			if j < len(m.PutT2) && m.PutT2[j] > 0 {
+				ops = append(ops, coqOp(opJ{"putT", m.PutT2[j]}))
+			}
+			run.AddCase(hx.CoqApp("CSeq", hx.CoqList(ops, "op"), z4(restored[j])), map[string]interface{}{"multi": m, "peer": j, "restored": restored[j]}, fmt.Sprintf("%v|%d", m, j), len(ops) >= 2)
+		}
+		run.OracleChecked(4 * k)
+		for j := 0; j < k; j++ {
+			names := []string{"retrieveTraffic", "lastSentCheque", "transferTraffic", "lastReceivedCheque"}
+			for f := 0; f < 4; f++ {
+				if restored[j][f] < want[j][f] {
+					sig := "restart:multi-peer:" + names[f] + "<completed"
+					if j < len(m.Cash) && m.Cash[j] != 0 && m.Recv[j] > 0 {
+						sig = "restart:after-cash-out:" + names[f] + "<completed"
+					}
+					run.Violate(hx.Violation{Sig: sig, Detail: fmt.Sprintf("peer %d of %d: restored %s %d < completed %d", j, k, names[f], restored[j][f], want[j][f]), Case: m, Impl: restored, Want: want})
+				}
+			}
+		}
+	}
 	if run.Replay != "" {
-		var c caseJ
-		if err := run.ReadReplay(&c); err != nil {
+		var probe struct {
+			Kind  string          `json:"kind"`
+			Multi json.RawMessage `json:"multi"`
+			Case  json.RawMessage `json:"case"`
+		}
+		if err := run.ReadReplay(&probe); err != nil {
 			panic(err)
 		}
-		do(c, "replay")
+		switch {
+		case probe.Kind != "":
+			var m multiJ
+			if err := run.ReadReplay(&m); err != nil {
+				panic(err)
+			}
+			doMulti(m, "replay")
+		case probe.Multi != nil:
+			var m multiJ
+			if err := json.Unmarshal(probe.Multi, &m); err != nil {
+				panic(err)
+			}
+			doMulti(m, "replay")
+		case probe.Case != nil:
+			var c caseJ
+			if err := json.Unmarshal(probe.Case, &c); err != nil {
+				panic(err)
+			}
+			do(c, "replay")
+		default:
+			var c caseJ
+			if err := run.ReadReplay(&c); err != nil {
+				panic(err)
+			}
+			do(c, "replay")
+		}
 		run.Finish()
 		return
 	}
-	// corpus: the F-persist-order witness shape (two concurrent PutRetrieveTraffic), many grant orders
-	// several peers restored by one Init (the per-peer loop of trafficInit)
+	// cash-out receipts between served traffic and the restart (fixed cases on every seed)
+	doMulti(multiJ{Kind: "cash-out-restart", Peers: 1, PutR: []int64{0}, PutT: []int64{12}, Recv: []int64{5}, Cash: []int{1}, PutT2: []int64{0}}, "corpus.cash-then-restart")
+	doMulti(multiJ{Kind: "cash-out-restart", Peers: 3, PutR: []int64{4, 0, 9}, PutT: []int64{12, 30, 7}, Recv: []int64{5, 30, 2}, Cash: []int{1, 1, 2}, PutT2: []int64{0, 0, 0}}, "corpus.cash-then-restart")
+	doMulti(multiJ{Kind: "cash-out-restart", Peers: 3, PutR: []int64{1, 2, 3}, PutT: []int64{20, 8, 15}, Recv: []int64{10, 8, 1}, Cash: []int{1, 3, 1}, PutT2: []int64{3, 0, 0}}, "corpus.cash-then-restart")
 	for i := 0; i < run.N(6, 40); i++ {
 		k := 2 + r.Intn(10)
 		m := multiJ{Kind: "multi-peer-restart", Peers: k}
@@ -758,25 +930,10 @@ func main() {
 			m.PutR = append(m.PutR, int64(r.Intn(20)))
 			m.PutT = append(m.PutT, int64(r.Intn(20)))
 			m.Recv = append(m.Recv, int64(r.Intn(3)*(1+r.Intn(9))))
+			m.Cash = append(m.Cash, r.Pick([]int{0, 0, 1, 1, 1, 2, 3}))
+			m.PutT2 = append(m.PutT2, int64(r.Pick([]int{0, 0, 0, 2, 11})))
 		}
-		var restored, want [][4]int64
-		var err error
-		ok := hx.WithTimeout(40*time.Second, func() { restored, want, err = runMulti(m) })
-		run.AddCase("", m, fmt.Sprintf("%v", m), true)
-		run.Hist("multi-peer-restart")
-		if !ok || err != nil {
-			run.Violate(hx.Violation{Sig: "run:hang-or-error", Detail: fmt.Sprintf("multi-peer case did not complete: ok=%v err=%v", ok, err), Case: m})
-			continue
-		}
-		run.OracleChecked(4 * k)
-		for j := 0; j < k; j++ {
-			names := []string{"retrieveTraffic", "lastSentCheque", "transferTraffic", "lastReceivedCheque"}
-			for f := 0; f < 4; f++ {
-				if restored[j][f] < want[j][f] {
-					run.Violate(hx.Violation{Sig: "restart:multi-peer:" + names[f] + "<completed", Detail: fmt.Sprintf("peer %d of %d: restored %s %d < completed %d", j, k, names[f], restored[j][f], want[j][f]), Case: m, Impl: restored, Want: want})
-				}
-			}
-		}
+		doMulti(m, "multi-peer-restart")
 	}
 	// a 24 h refresh concurrent with traffic updates
 	for i := 0; i < run.N(6, 30); i++ {
